@@ -508,3 +508,67 @@ def flag_fact(name, key):
         c = strip_casts(c)
         return True if _load_key(c) == key else None
     return (name, m)
+
+
+# ------------------------------------------------------------------------------------------------
+# reference count protocol of the decompressor's input blocks
+# ------------------------------------------------------------------------------------------------
+
+def refcount_obligations(ctx, prog, pfx):
+    """An in_blk is shared by input_q and by every attached bit stream.  It may be released (buffer handed back,
+    block freed) only by the party that drops the last reference: every release of a queued/attached block is on
+    the true edge of `--blk->ref_count == 0`; the count starts at 1 with the push on input_q and is incremented
+    only in attach()."""
+    m = prog.module('expand')
+    rel = []
+    for f in m.funcs.values():
+        P = Prov(prog, f)
+        for c in f.calls('source_release_buffer'):
+            a = strip_casts(P.expr(c.ops[0]))
+            if a[0] == 'load' and path_key(a[1][2]).endswith('.buffer'):
+                rel.append((f, P, c, a))
+    ctx.floor(pfx + ' expand.c: releases of a shared input block', len(rel), 3)
+    for f, P, c, a in rel:
+        base = addr_key(a[1])[:-len('.buffer')]          # the block object
+        gs = rules_guards(f, P, c.block.name)
+        ok = False
+        def is_dec(x):
+            x = strip_casts(x)
+            if x[0] == 'bin' and x[1] in ('add', 'sub'):
+                l, k = strip_casts(x[2]), strip_casts(x[3])
+                dec = (x[1] == 'add' and k == ('const', -1)) or (x[1] == 'sub' and k == ('const', 1))
+                return dec and l[0] == 'load' and path_key(l[1][2]).endswith('.ref_count') and \
+                    addr_key(l[1])[:-len('.ref_count')] == base
+            return False
+        for b, e, pol in gs:
+            core, p2 = peel_cond(e)
+            if is_dec(core):
+                if (pol == p2) is False:        # edge taken when the decremented count is zero
+                    ok = True
+                continue
+            cn = cmp_norm(core)
+            if cn is not None and cn[2] == ('const', 0) and cn[0] in ('eq', 'ne') and is_dec(cn[1]):
+                if (cn[0] == 'eq') == (pol == p2):
+                    ok = True
+        # the block itself is freed under the same guard
+        fr = [x for x in f.calls('free') if x.block is c.block]
+        ctx.ob(pfx + '.refcount', '%s(): the input buffer is handed back (and its block freed) only when the decremented '
+               'reference count reached 0' % f.name, f.loc(c), ok and bool(fr), 'guards: %s' % [render(e)[:60] for _, e, _ in gs][:4])
+    # increments only in attach(); initial value 1 in on_input_avail
+    incs, inits = [], []
+    for f in m.funcs.values():
+        P = Prov(prog, f)
+        for i in f.insns():
+            if i.op == 'store' and path_key(P.addr(i.ops[1])[2]).endswith('.ref_count'):
+                v = strip_casts(P.expr(i.ops[0]))
+                if v[0] == 'const':
+                    inits.append((f.name, v[1]))
+                elif v[0] == 'bin' and strip_casts(v[3]) == ('const', 1) and v[1] == 'add':
+                    incs.append(f.name)
+    ctx.ob(pfx + '.refcount', 'the count starts at 1 (the queue\'s reference) and is incremented only by attach()',
+           'src/expand.c', inits == [('on_input_avail', 1)] and incs == ['attach'], 'init %s, increments in %s' % (inits, incs))
+
+
+def rules_guards(f, P, blk):
+    import rules
+    return rules.guards(f, P, blk)
